@@ -259,10 +259,11 @@ CHECKS = {
                         'history programs cannot assign to built-in objects (the language has no property assignment); in-place writes by built-ins are the subject of C06'],
     },
     'C03': {
-        'lean_modules': ['Pangaea.Theorems.C03'],
-        'theorem_modules': ['Pangaea.Theorems.C03'],
+        'lean_modules': ['Pangaea.Theorems.C03', 'Pangaea.Theorems.C03Scope'],
+        'theorem_modules': ['Pangaea.Theorems.C03', 'Pangaea.Theorems.C03Scope'],
         'theorems': ['Pangaea.C03.positional', 'Pangaea.C03.arg_var', 'Pangaea.C03.arg_all', 'Pangaea.C03.arg_first', 'Pangaea.C03.keyword_param',
-                     'Pangaea.C03.kwarg_var', 'Pangaea.C03.kwarg_all'],
+                     'Pangaea.C03.kwarg_var', 'Pangaea.C03.kwarg_all', 'Pangaea.C03.allPres', 'Pangaea.C03.call_changes_no_existing_scope',
+                     'Pangaea.C03.eval_writes_only_current_scope', 'Pangaea.C03.program_writes_only_its_scope', 'Pangaea.C03.call_scope_encloses_definition'],
         'harness': ['C03'],
         'shards': 14,
         'spec_is_function': True,
